@@ -609,11 +609,18 @@ impl Ctx {
                     }
                 }
             }
+            let mut hang_confirmed = false;
             for (sh, c) in children.into_iter().enumerate() {
                 let out = c.wait_with_output().expect("wait for shard");
                 let txt = String::from_utf8_lossy(&out.stdout);
                 let line = txt.lines().find(|l| l.starts_with("SHARD-RESULT "));
                 let hang = txt.lines().find(|l| l.starts_with("SHARD-HANG "));
+                if let (None, Some(_)) = (line, hang) {
+                    if hang_confirmed {
+                        // one confirmed hang per section is enough (each confirmation costs 2x the limit)
+                        continue;
+                    }
+                }
                 if let (None, Some(h)) = (line, hang) {
                     // a case did not return in time: confirm it alone with twice the limit
                     let case_v: Value = serde_json::from_str(&h["SHARD-HANG ".len()..]).unwrap_or(Value::Null);
@@ -642,6 +649,7 @@ impl Ctx {
                         .status();
                     let _ = std::fs::remove_file(&cand);
                     if matches!(st.map(|s| s.code()), Ok(Some(3))) {
+                        hang_confirmed = true;
                         results.push((Cov::new(), Some((case_v, f)), vec![]));
                     } else {
                         eprintln!("INFRASTRUCTURE: a case of section {name} exceeded its time limit once but not when re-run alone (unconfirmed timeout)");
